@@ -289,6 +289,25 @@ def family_types0(tier, seed, n=None, reports=False, options=True):
         if reports:
             ops.append({"op": "report"})
         out.append({"id": "%s/shifted/%d" % ("rpt" if reports else "types", k_), "shapes": shapes, "ops": ops})
+    # the parameter changes the bins of a coverpoint that takes part in NO cross (the crosses of the two shapes are alike): still
+    # separate types, in either creation order
+    for k_, (va, vb) in enumerate([(0, 1), (1, 0), (4, 5)]):
+        def sh3(variant):
+            sh = small_shape(random.Random(5), "CGU", variant)
+            sh["vars"]["c"] = {"w": 1}
+            sh["cps"].append({"name": "cc", "var": "c", "abm": 64})
+            sh["xs"] = [{"name": "x", "cps": ["cb", "cc"]}]
+            return sh
+        shapes = {"S0": sh3(va), "S1": sh3(vb)}
+        ops = [{"op": "new", "shape": "S0"}, {"op": "new", "shape": "S1"}]
+        for v in (0, 1, 2, 4, 5, 6, 7):
+            for i_ in (1, 2):
+                ops.append({"op": "sample", "inst": i_, "vals": {"a": v, "b": v % 2, "c": (v // 2) % 2}})
+        ops.append({"op": "new", "shape": "S1"})
+        ops.append({"op": "sample", "inst": 3, "vals": {"a": 2, "b": 1, "c": 1}})
+        if reports:
+            ops.append({"op": "report"})
+        out.append({"id": "%s/uncrossed/%d" % ("rpt" if reports else "types", k_), "shapes": shapes, "ops": ops})
     n = n or (40 if tier == "quick" else 500)
     for t in range(n):
         rnd = random.Random((991 if t < n // 2 else 3000 + seed) * 100003 + t + (7 if reports else 0))
